@@ -1945,9 +1945,13 @@ func opcodeCheckSig(op *ParsedOpcode, t *thread) error {
 	}
 
 	// The signature actually needs needs to be longer than this, but at
-	// least 1 byte is needed for the hash type below.  The full length is
-	// checked depending on the script flags and upon parsing the signature.
+	// least 1 byte is needed for the hash type below.  An empty signature is a
+	// valid way to fail the check without tripping NULLFAIL, but the public key
+	// still has to be well encoded.
 	if len(fullSigBytes) < 1 {
+		if err = t.checkPubKeyEncoding(pkBytes); err != nil {
+			return err
+		}
 		t.dstack.PushBool(false)
 		return nil
 	}
@@ -1979,54 +1983,59 @@ func opcodeCheckSig(op *ParsedOpcode, t *thread) error {
 	// Get script starting from the most recent bscript.OpCODESEPARATOR.
 	subScript := t.subScript()
 
-	// Generate the signature hash based on the signature hash type.
-	var hash []byte
-
 	// Remove the signature since there is no way for a signature
-	// to sign itself.
-	if !t.hasFlag(scriptflag.EnableSighashForkID) || !shf.Has(sighash.ForkID) {
+	// to sign itself. FORKID signatures (under the FORKID flag) sign the script code as it is.
+	if !t.signsScriptCodeAsIs(shf) {
 		subScript = subScript.removeOpcodeByData(fullSigBytes)
 		subScript = subScript.removeOpcode(bscript.OpCODESEPARATOR)
 	}
 
-	up, err := t.scriptParser.Unparse(subScript)
-	if err != nil {
-		return err
-	}
-
-	txCopy := t.tx.Clone()
-	txCopy.Inputs[t.inputIdx].PreviousTxScript = up
-
-	hash, err = txCopy.CalcInputSignatureHash(uint32(t.inputIdx), shf)
+	hash, err := t.signatureHash(subScript, shf)
 	if err != nil {
 		t.dstack.PushBool(false)
 		return err
 	}
 
-	pubKey, err := bec.ParsePubKey(pkBytes, bec.S256())
-	if err != nil {
-		t.dstack.PushBool(false)
-		return nil //nolint:nilerr // only need a false push in this case
+	ok := false
+	if pubKey, err := bec.ParsePubKey(pkBytes, bec.S256()); err == nil { //nolint:govet // ignore shadowed error
+		var signature *bec.Signature
+		if t.hasAny(scriptflag.VerifyStrictEncoding, scriptflag.VerifyDERSignatures) {
+			signature, err = bec.ParseDERSignature(sigBytes, bec.S256())
+		} else {
+			signature, err = bec.ParseSignature(sigBytes, bec.S256())
+		}
+		if err == nil {
+			ok = signature.Verify(hash, pubKey)
+		}
 	}
 
-	var signature *bec.Signature
-	if t.hasAny(scriptflag.VerifyStrictEncoding, scriptflag.VerifyDERSignatures) {
-		signature, err = bec.ParseDERSignature(sigBytes, bec.S256())
-	} else {
-		signature, err = bec.ParseSignature(sigBytes, bec.S256())
-	}
-	if err != nil {
-		t.dstack.PushBool(false)
-		return nil //nolint:nilerr // only need a false push in this case
-	}
-
-	ok := signature.Verify(hash, pubKey)
+	// A failed check of a non-empty signature is an error under NULLFAIL, whatever made it fail.
 	if !ok && t.hasFlag(scriptflag.VerifyNullFail) && len(sigBytes) > 0 {
 		return errs.NewError(errs.ErrNullFail, "signature not empty on failed checksig")
 	}
 
 	t.dstack.PushBool(ok)
 	return nil
+}
+
+// signsScriptCodeAsIs reports whether a signature with the given hash type covers the script
+// code unmodified (FORKID signatures under the FORKID flag); all others need the signature and
+// the code separators removed first.
+func (t *thread) signsScriptCodeAsIs(shf sighash.Flag) bool {
+	return t.hasFlag(scriptflag.EnableSighashForkID) && shf.Has(sighash.ForkID)
+}
+
+// signatureHash computes the digest of the checked input for the given script code.
+func (t *thread) signatureHash(scriptCode ParsedScript, shf sighash.Flag) ([]byte, error) {
+	up, err := t.scriptParser.Unparse(scriptCode)
+	if err != nil {
+		return nil, err
+	}
+
+	txCopy := t.tx.Clone()
+	txCopy.Inputs[t.inputIdx].PreviousTxScript = up
+
+	return txCopy.CalcInputSignatureHash(uint32(t.inputIdx), shf)
 }
 
 // opcodeCheckSigVerify is a combination of opcodeCheckSig and opcodeVerify.
@@ -2234,17 +2243,8 @@ func opcodeCheckMultiSig(op *ParsedOpcode, t *thread) error {
 			continue
 		}
 
-		up, err := t.scriptParser.Unparse(script)
-		if err != nil {
-			t.dstack.PushBool(false)
-			return nil //nolint:nilerr // only need a false push in this case
-		}
-
 		// Generate the signature hash based on the signature hash type.
-		txCopy := t.tx.Clone()
-		txCopy.Inputs[t.inputIdx].PreviousTxScript = up
-
-		signatureHash, err := txCopy.CalcInputSignatureHash(uint32(t.inputIdx), shf)
+		signatureHash, err := t.signatureHash(script, shf)
 		if err != nil {
 			t.dstack.PushBool(false)
 			return nil //nolint:nilerr // only need a false push in this case
